@@ -731,7 +731,8 @@ Example ex_dag_acyclic : acyclic ex_dag.
 Proof. apply (proj1 (acyclicb_spec Nat.eqb Nat.eqb_spec ex_dag_wf)); reflexivity. Qed.
 Example ex_cyc_cyclic : ~ acyclic ex_cyc.
 Proof.
-  intros H. apply (proj2 (acyclicb_spec Nat.eqb Nat.eqb_spec ex_cyc_wf)) in H. discriminate.
+  intros H. apply (proj2 (acyclicb_spec Nat.eqb Nat.eqb_spec ex_cyc_wf)) in H.
+  vm_compute in H. discriminate.
 Qed.
 
 (** [desc_spec] on a cyclic graph: 0 is its own strict descendant. *)
